@@ -801,7 +801,7 @@ fn build_item(d: &mut Dice) -> (Item, Vec<String>, Vec<String>) {
                     let mut k = 0;
                     for c in &counts {
                         if *c == 1 {
-                            if let FT::T(t) = fg.fields[k].clone() {
+                            if let FT::T(t) | FT::Tuple(t) = fg.fields[k].clone() {
                                 fg.fields[k] = FT::VecT(t);
                             }
                         }
@@ -870,7 +870,8 @@ fn build_item(d: &mut Dice) -> (Item, Vec<String>, Vec<String>) {
                 let mut k = 0;
                 for c in &counts {
                     if *c == 1 {
-                        if let FT::T(t) = fg.fields[k].clone() {
+                        // (a lone `(U, T)` field would likewise overlap with a two-field variant)
+                        if let FT::T(t) | FT::Tuple(t) = fg.fields[k].clone() {
                             fg.fields[k] = FT::VecT(t);
                         }
                     }
